@@ -485,7 +485,7 @@ def worker(args):
 def run(ck):
     exe = ck.build("asan", ["vsrv"])["vsrv"]
     thorough = ck.tier == "thorough"
-    n = int((12000 if thorough else 130) * ck.scale)
+    n = int((36000 if thorough else 130) * ck.scale)
     args = [(ck.rundir, exe, sa.subseed(ck, i), n, i) for i in range(16)]
     results = c01.run_workers(ck, worker, args)
     shapes = set()
